@@ -17,10 +17,12 @@ REGNAMES = ["h", "example.com", "EXAMPLE.com", "a-b.c_d~e", "h.", "h..", "xn--td
 IPV4 = ["127.0.0.1", "1.2.3.4", "255.255.255.255", "0.0.0.0"]
 IPV6 = ["::1", "::", "2001:db8::1", "2001:DB8:0:0:0:0:0:1", "1:2:3:4:5:6:7:8", "::ffff:1.2.3.4", "fe80::1%eth0", "fe80::1%25eth0",
         "1::", "fe80::1%é", "::1%тест", "0:0:0:0:0:0:0:0", "1:0:0:2:0:0:0:3", "::1:2:3:4:5:6:7", "1:2:3:4:5:6:7::", "2001:db8::", "0:0:1::", "::0:0:1",
-        "fe80::1%", "1:2:3:4:5:6:1.2.3.4", "v1.a", "vF.x:y", "1:2", ":::", "1:::2", "12345::", "g::1", "::1%z%y", "::1.2.3", "1:2:3:4:5:6:7:8:9"]
+        "fe80::1%", "1:2:3:4:5:6:1.2.3.4", "１:0:0:0:0:0:0:2", "::ｆfff:1.2.3.4", "fe80::¹%eth0", "２001:DB8::", "v1.a", "vF.x:y", "1:2", ":::", "1:::2", "12345::", "g::1", "::1%z%y", "::1.2.3", "1:2:3:4:5:6:7:8:9"]
 IDN = ["ex［ample.com", "a］b.é", "ü.com", "例え.jp", "bücher.example", "A_B.ü.com", "ß.de", "İ.com", "a／b", "ｅxample.com", "xn--a.é", "a­b.é", "é" * 64 + ".com", "１.2.3.4", "٣",
        "user＠example.com", "a：b.com", "a﹕80", "a﹫b", "x℀y.com", "a＃b", "a？b", "good.com＠evil.org",
        # an IDN whose LAST label is ASCII and ends in a digit (looks like the tail of an IPv4 address to a careless test)
+       # A-labels that only IDNA 2008 decodes (sharp s, final sigma) next to a label the idna package refuses: whole-host decoding falls back
+       "_dmarc.xn--strae-oqa.de", "a_b.xn--fa-hia.de", "xn--nxasmm1c.a!b", "_x.straße.de",
        "bücher.h1", "ü.com2", "例え.x9", "xn--bcher-kva.h1", "é.1a2", "i❤.ws", "☃.net", "my_svc.bücher.de", "xn--i-7iq.ws"]
 PORTS = ["", ":", ":0", ":80", ":443", ":21", ":8080", ":65535", ":65536", ":abc", ":+1", ":1_0", ": 80", ":-1", ":٣", ":80:81", ":00080"]
 PATHS = ["", "/", "/a", "/a/b/", "/a/../b", "/./a", "/a/.", "/..", "/a/%2e%2E/b", "/a%2Fb", "/a b", "/é", "/%C3%A9", "/a;b=c", "/a:b@c",
@@ -136,6 +138,9 @@ class Stream:
 
     def rt(self, h):
         return self.add("rt\tB\t%d" % h, True)
+
+    def hre(self, h):
+        return self.add("hre\tB\t%d" % h, True)
 
     def hr(self, h):
         return self.add("hr\tB\t%d" % h, True)
